@@ -15,6 +15,7 @@ Numerics are assumed through the residual bound only: the Newton solver returns 
 import WntrModel.Lemmas.LinkRowsReal
 import WntrModel.Gen.RowsC01
 import WntrModel.Gen.UpdaterC02
+import WntrModel.Gen.StoreC01
 
 set_option linter.unusedSimpArgs false
 set_option linter.unusedVariables false
@@ -227,6 +228,62 @@ theorem dd_reported_demand (l : List TS) (patStep : Int) (interp : Bool) (patSta
     (junctionStored false dv (expectedDemand l patStep interp patStart simTime dm) ls lr 0).1 =
       (l.map (fun d => d.base * entryMult d patStep interp (simTime + patStart) * dm)).sum := by
   simp only [junctionStored, dd_demand_formula]; simp
+
+/-! ### 4b. `store_results_in_network` as EXECUTED (Gen/StoreC01.lean: the real function run on symbolic model values) -/
+
+/-- for a network with junctions (leak on / off / isolated with the leak still on), two tanks (leak on / off), two reservoirs, links of
+every end-node combination incl. tank→tank, reservoir→reservoir, parallel and anti-parallel ones, a pump, a valve and isolated links,
+in DD and PDD mode, the real `store_results_in_network` stores:
+* junction: `_demand` = the `demand` variable (PDD) / the `expected_demand` parameter (DD), `_leak_demand` = `leak_rate` iff
+  `leak_status`; everything 0 when isolated (also the leak demand of a junction whose leak is still on);
+* tank: `_demand` = Σ flow(links ending there) − Σ flow(links starting there) − `leak_rate` (iff `leak_status`), every link counted
+  for BOTH of its ends, `_leak_demand` = `leak_rate` iff `leak_status`;
+* reservoir: `_demand` = Σ in − Σ out, `_leak_demand` = 0;
+* link: `_flow` = the flow variable, 0 when isolated.
+This replaces the hand transliteration (`tankDemand`, `reservoirDemand`, `junctionStored`) as the tie to hydraulics.py. -/
+theorem gen_store_results_ok :
+    (StoreC01.DD.nodes.all (storedOk StoreC01.links StoreC01.isolatedLinks StoreC01.DD.leafNames false)) = true ∧
+    (StoreC01.PDD.nodes.all (storedOk StoreC01.links StoreC01.isolatedLinks StoreC01.PDD.leafNames true)) = true ∧
+    (StoreC01.DD.flows.all (flowStoredOk StoreC01.isolatedLinks StoreC01.DD.leafNames)) = true ∧
+    (StoreC01.PDD.flows.all (flowStoredOk StoreC01.isolatedLinks StoreC01.PDD.leafNames)) = true := by
+  refine ⟨?_, ?_, ?_, ?_⟩ <;> decide +kernel
+
+/-- what the traced network covers -/
+theorem gen_store_covers :
+    (StoreC01.links.any fun l => l.start == "T1" && l.stop == "T2") = true ∧ (StoreC01.links.any fun l => l.start == "T2" && l.stop == "T1") = true ∧
+    (StoreC01.links.any fun l => l.start == "R1" && l.stop == "R2") = true ∧ (StoreC01.links.any fun l => l.start == "R2" && l.stop == "R1") = true ∧
+    (StoreC01.DD.nodes.any fun r => r.kind == .junction && r.isolated && r.leakStatus) = true ∧
+    (StoreC01.DD.nodes.any fun r => r.kind == .tank && r.leakStatus) = true ∧
+    (StoreC01.DD.nodes.any fun r => r.kind == .tank && !r.leakStatus) = true ∧ StoreC01.isolatedLinks.length = 2 := by
+  decide +kernel
+
+/-- soundness for tanks and reservoirs: an accepted stored demand evaluates, for all leaf values, to the signed sum of
+`netInflowTerms` — inflow minus outflow minus leak -/
+theorem storedOk_netInflow_sound (env : Env ℝ) (links : List ZLink) (iso names : List String) (pdd : Bool) (r : ZStored)
+    (hk : r.kind ≠ .junction) (h : storedOk links iso names pdd r = true) :
+    ∃ e, netInflowTerms links iso names r.node (r.kind = .tank && r.leakStatus) = some e ∧
+      eval realOps env r.demand = (e.map (termVal env)).sum := by
+  unfold storedOk at h
+  simp only [Bool.and_eq_true] at h
+  obtain ⟨-, h2⟩ := h
+  generalize hb : (decide (r.kind = NodeKind.tank) && r.leakStatus) = b at h2 ⊢
+  have key : permOpt (linTerms r.demand false) (netInflowTerms links iso names r.node b) = true := by
+    cases hkind : r.kind with
+    | junction => exact absurd hkind hk
+    | tank => simpa [hkind] using h2
+    | reservoir => simpa [hkind] using h2
+  unfold permOpt at key
+  cases hl : linTerms r.demand false with
+  | none => simp [hl] at key
+  | some l =>
+    cases he : netInflowTerms links iso names r.node b with
+    | none => simp [hl, he] at key
+    | some e =>
+      simp only [hl, he] at key
+      refine ⟨e, rfl, ?_⟩
+      have hs := linTerms_sound env r.demand false l hl
+      simp only [Bool.false_eq_true, if_false, one_mul] at hs
+      rw [hs, ((List.isPerm_iff.1 key).map (termVal env)).sum_eq]
 
 /-! ### 6. the mass-balance row is rebuilt when the leak is switched or the junction's isolation changes -/
 
